@@ -380,6 +380,12 @@ func runC30Seq(t *testing.T, tp *simrt.Tape, keepTrace bool) hx.Result {
 	evals := 0
 	finished := false
 	s, res := hx.Sim(t, tp, cfg, func() {
+		defer func() {
+			// a panic inside the queue (e.g. a heap index out of range) is a verdict, not a dead worker
+			if r := recover(); r != nil && viol == nil {
+				viol = &hx.Violation{Sig: "panic|seq", Detail: fmt.Sprintf("%v; history: %s", r, strings.Join(hist, " ; "))}
+			}
+		}()
 		q := NewQueue(dur, max, sglog.NoOp())
 		mdur, mmax := dur, max
 		if mdur < 0 || mmax < 0 {
